@@ -25,10 +25,11 @@ def safter (c : Cfg) (es : List Ev) : KA := (runG serverFire c (KA.init c) es).1
     later than".  It is FALSE of the unchanged code (`dead_peer_closed_by_counterexample`); what holds
     in general is the bound plus `slack`, which is `min Time Timeout` after a late wake, else 0. -/
 theorem dead_peer_closed_by_partial (c : Cfg) (es : List Ev) (hv : Valid c (KA.init c) es = true)
-    (hc : (after c es).closed = false) (ha : (after c es).applicable c = true) :
+    (hc : (after c es).closed = false) (ha : (after c es).applicable c = true)
+    (hcu : (after c es).pendingInit = 0) :
     (after c es).now ≤ max ((after c es).lastRead + c.time) (after c es).appSince + c.timeout
       + (if (after c es).lateWake then min c.time c.timeout else 0) := by
-  have := bound_of_inv (inv_run es (inv_init c) hv) hc ha
+  have := bound_of_inv (inv_run es (inv_init c) hv) hc ha hcu
   simp only [deadBound, slack] at this
   exact this
 
@@ -37,18 +38,20 @@ theorem dead_peer_closed_by_partial (c : Cfg) (es : List Ev) (hv : Valid c (KA.i
     before it is not dormant. -/
 theorem dead_peer_closed_by (c : Cfg) (es : List Ev) (hv : Valid c (KA.init c) es = true)
     (hn : ∀ pre post, es = pre ++ Ev.read :: post → (after c pre).dormant = false)
-    (hc : (after c es).closed = false) (ha : (after c es).applicable c = true) :
+    (hc : (after c es).closed = false) (ha : (after c es).applicable c = true)
+    (hcu : (after c es).pendingInit = 0) :
     (after c es).now ≤ max ((after c es).lastRead + c.time) (after c es).appSince + c.timeout := by
-  have h := dead_peer_closed_by_partial c es hv hc ha
+  have h := dead_peer_closed_by_partial c es hv hc ha hcu
   have hl : (after c es).lateWake = false := noLate_run es _ hv hn (by simp [NoLate, KA.init])
   simpa [hl] using h
 
 /-- … in particular always with PermitWithoutStream (never dormant; applicable from instant 0, so
     the bound is lastRead + Time + Timeout). -/
 theorem dead_peer_closed_by_permit (c : Cfg) (hp : c.permit = true) (es : List Ev)
-    (hv : Valid c (KA.init c) es = true) (hc : (after c es).closed = false) :
+    (hv : Valid c (KA.init c) es = true) (hc : (after c es).closed = false)
+    (hcu : (after c es).pendingInit = 0) :
     (after c es).now ≤ (after c es).lastRead + c.time + c.timeout := by
-  have h := dead_peer_closed_by_partial c es hv hc (by simp [KA.applicable, hp])
+  have h := dead_peer_closed_by_partial c es hv hc (by simp [KA.applicable, hp]) hcu
   have hi := inv_run es (inv_init c) hv
   have hl : (after c es).lateWake = false := by
     cases hlw : (after c es).lateWake with
@@ -58,17 +61,34 @@ theorem dead_peer_closed_by_permit (c : Cfg) (hp : c.permit = true) (es : List E
   simp [hl, h0] at h
   omega
 
+/-- The wake-up has two cooperating sites: NewStream registers the stream in `activeStreams` (caller
+    goroutine), loopy later runs its `initStream`, which signals a dormant keepalive loop. In every
+    reachable state a dormant loop with open streams still has an `initStream` on its way … -/
+theorem dormant_with_streams_has_pending_wake (c : Cfg) (es : List Ev) (hv : Valid c (KA.init c) es = true)
+    (hd : (after c es).dormant = true) (hs : 0 < (after c es).streams) : 0 < (after c es).pendingInit := by
+  simp only [after] at hd hs ⊢
+  have h := (inv_run es (inv_init c) hv).dorm hd
+  rcases h.2.2.1 with h0 | h0 <;> omega
+
+/-- … and EVERY `initStream` wakes the loop, however many streams are registered by then: it leaves
+    dormancy and pings at once. (So once loopy has caught up, `pendingInit = 0`, a loop with streams is
+    not dormant and `dead_peer_closed_by` applies.) -/
+theorem every_initStream_wakes (c : Cfg) (s : KA) (hc : s.closed = false) (hd : s.dormant = true)
+    (ho : s.outstanding = false) :
+    (step c s .initS).1.dormant = false ∧ (step c s .initS).2 = [Out.ping s.now] := by
+  simp [step, stepG, hc, hd, sendAndSleep, ho]
+
 /-- The unchanged code violates the literal bound: Time 10, Timeout 3, no PermitWithoutStream; the
     loop goes dormant at 10, a frame is read at 20, a stream opens at 29 (ping), the expiry at 32
     sees the stale read, discards the outstanding ping and pings again; at 34 > 33 = max(20+10, 29)+3
     the transport is still open (it closes at 35). -/
 theorem dead_peer_closed_by_counterexample :
     ¬ ∀ (c : Cfg) (es : List Ev), Valid c (KA.init c) es = true →
-        (after c es).closed = false → (after c es).applicable c = true →
+        (after c es).closed = false → (after c es).applicable c = true → (after c es).pendingInit = 0 →
         (after c es).now ≤ max ((after c es).lastRead + c.time) (after c es).appSince + c.timeout := by
   intro h
   have := h ⟨10, 3, false⟩ [.delay 10, .fire, .delay 10, .read, .delay 9, .openS, .delay 3, .fire, .fire, .delay 2]
-    (by decide) (by decide) (by decide)
+    (by decide) (by decide) (by decide) (by decide)
   revert this
   decide
 
@@ -149,11 +169,12 @@ private theorem srun_eq (c : Cfg) (hp : c.permit = true) : ∀ (es : List Ev) (s
 
 /-- Server: while nothing is read the connection is closed no later than lastRead + Time + Timeout. -/
 theorem server_dead_peer_closed_by (c : Cfg) (hp : c.permit = true) (es : List Ev)
-    (hv : Valid c (KA.init c) es = true) (hc : (safter c es).closed = false) :
+    (hv : Valid c (KA.init c) es = true) (hc : (safter c es).closed = false)
+    (hcu : (safter c es).pendingInit = 0) :
     (safter c es).now ≤ (safter c es).lastRead + c.time + c.timeout := by
   have he : safter c es = after c es := by simp only [safter, after]; rw [srun_eq c hp]
-  rw [he] at hc ⊢
-  exact dead_peer_closed_by_permit c hp es hv hc
+  rw [he] at hc hcu ⊢
+  exact dead_peer_closed_by_permit c hp es hv hc hcu
 
 /-- Server: a connection heard from at least once every Time is never closed by keepalive. -/
 theorem server_healthy_never_closed (c : Cfg) (hp : c.permit = true) (hto : 1 ≤ c.timeout) (es : List Ev)
